@@ -96,7 +96,15 @@ fn run_case(cx: &CaseCtx, rep: &mut Report) {
 		}
 		let mut text = format!("from_container filename={name}");
 		let mut model: BTreeMap<Key, Vec<u8>> = ts.tiles.iter().map(|(k, v)| (*k, comp::decompress(v, ts.comp).unwrap())).collect();
-		if rng.chance(0.3) {
+		if rng.chance(0.12) {
+			// a member that ends up without any tile (filtered to levels it does not have): still a member
+			let top = ts.levels().into_iter().max().unwrap_or(0);
+			if top < 31 {
+				text.push_str(&format!(" | filter_zoom min={}", top + 1));
+				model.clear();
+				rep.count("members_without_any_tile", 1);
+			}
+		} else if rng.chance(0.3) {
 			let lv: Vec<u8> = ts.levels().into_iter().collect();
 			let (a, b) = (*rng.pick(&lv), *rng.pick(&lv));
 			let (lo, hi) = (a.min(b), a.max(b));
